@@ -3,6 +3,7 @@
 mod bpt;
 mod ck;
 mod dmg;
+mod cp;
 mod e2;
 mod e3;
 mod lockeng;
@@ -43,6 +44,7 @@ fn main() {
         let res = std::panic::catch_unwind(std::panic::AssertUnwindSafe(|| match toks[0] {
             "wal" => wal_engine.get_or_insert_with(wal::WalEngine::new).cmd(&toks[1..]),
             "ck" => ck::cmd(&toks[1..]),
+            "cp" => cp::cmd(&toks[1..]),
             "tbl" => tbl_engine.get_or_insert_with(tbl::TblEngine::new).cmd(&toks[1..]),
             "bpt" => bpt_engine.get_or_insert_with(bpt::Bpt::new).cmd(&toks[1..]),
             "orc" => orc_engine.get_or_insert_with(orc::OrcEngine::new).cmd(&toks[1..]),
